@@ -1,1 +1,161 @@
-From CMinx Require Import Base.Str.
+(* Properties/C09.v -- Class entries reflect the cpp_class structure of the source.
+   Only theorem statements; proofs are in Proofs/AggClass.v.  Spec side (defined there on the nested
+   view of Spec/AggSpec.v): class_inner / class_attrs / class_method_decls read the items of a
+   class body in source order, looking through function bodies but not into nested classes. *)
+From Coq Require Import String List.
+From CMinx Require Import Base.Str Model.Parser Model.Writer Model.DocTypes Model.Aggregator
+     Spec.AggSpec Gen.SourceLiterals Proofs.AggClass Proofs.LiteralsMatch.
+Import ListNotations.
+
+(* cpp_class ... cpp_end_class is balanced: commands after cpp_end_class belong to the enclosing
+   context again (any nesting depth) *)
+Theorem C09_class_stack_restored :
+  forall trigger strip_fn strip_mac strip_mem fl nodes st st',
+    inc_cpp_class fl = true -> wf_nodes nodes = true -> class_hdrs_ok nodes = true ->
+    agg_run fl trigger strip_fn strip_mac strip_mem st (flatten_all nodes) = Ok st' ->
+    class_stack st' = class_stack st.
+Proof. exact class_stack_restored. Qed.
+Print Assumptions C09_class_stack_restored.
+
+(* the main theorem: the entry of a class lists exactly the attributes, methods, constructors
+   and inner classes of ITS body, in source order; every other existing entry is unchanged except
+   that the enclosing class gains this class's name in its inner-class list *)
+Theorem C09_class_entry_reflects_body :
+  forall trigger strip_fn strip_mac strip_mem fl doc hdr body endc name supers st st',
+    class_flags_on fl = true ->
+    wf_node (NClass doc hdr body endc) = true ->
+    class_hdrs_ok [NClass doc hdr body endc] = true ->
+    singles hdr = name :: supers ->
+    top_in_range st = true ->
+    agg_run fl trigger strip_fn strip_mac strip_mem st (flatten (NClass doc hdr body endc)) = Ok st' ->
+    cview_at st' (length (documented st))
+    = Some {| cv_name := name; cv_doc := doc_of doc; cv_supers := supers;
+              cv_inner := class_inner body;
+              cv_ctors := class_method_decls true body;
+              cv_members := class_method_decls false body;
+              cv_attrs := class_attrs body |}
+    /\ class_stack st' = class_stack st
+    /\ (forall i, i < length (documented st) ->
+          cview_at st' i
+          = if is_top i st
+            then option_map (cv_ext {| it_inner := [name]; it_ctors := []; it_members := [];
+                                       it_attrs := [] |}) (cview_at st i)
+            else cview_at st i).
+Proof. exact class_entry_reflects_body. Qed.
+Print Assumptions C09_class_entry_reflects_body.
+
+(* its side condition holds in every reachable state *)
+Theorem C09_reachable_top_in_range :
+  forall trigger strip_fn strip_mac strip_mem fl es st,
+    agg_run fl trigger strip_fn strip_mac strip_mem agg_init es = Ok st -> top_in_range st = true.
+Proof. exact reachable_top_in_range. Qed.
+Print Assumptions C09_reachable_top_in_range.
+
+(* members and attributes attach to the innermost class (top of the stack) and to no other entry *)
+Theorem C09_member_attaches_to_top_only :
+  forall is_ctor c doc docd st cidx rest name parent types n d su inner ct me at_,
+    singles c = name :: parent :: types ->
+    class_stack st = Some cidx :: rest ->
+    nth_error (documented st) cidx = Some (EClass n d su inner ct me at_) ->
+    let m := decl_method is_ctor name parent types doc docd in
+    let st' := process_member is_ctor c doc docd st in
+    nth_error (documented st') cidx
+    = Some (if is_ctor then EClass n d su inner (ct ++ [m]) me at_
+            else EClass n d su inner ct (me ++ [m]) at_)
+    /\ (forall i, i <> cidx -> nth_error (documented st') i = nth_error (documented st) i)
+    /\ length (documented st') = length (documented st)
+    /\ origins st' = origins st
+    /\ class_stack st' = class_stack st
+    /\ def_stack st' = def_stack st
+    /\ awaiting st' = AwMethod cidx is_ctor.
+Proof. exact member_attaches_to_top_only. Qed.
+Print Assumptions C09_member_attaches_to_top_only.
+
+Theorem C09_attr_attaches_to_top_only :
+  forall c doc docd st cidx rest parent name more n d su inner ct me at_,
+    singles c = parent :: name :: more ->
+    class_stack st = Some cidx :: rest ->
+    nth_error (documented st) cidx = Some (EClass n d su inner ct me at_) ->
+    let a := decl_attr c parent name doc docd in
+    let st' := process_attr c doc docd st in
+    nth_error (documented st') cidx = Some (EClass n d su inner ct me (at_ ++ [a]))
+    /\ (forall i, i <> cidx -> nth_error (documented st') i = nth_error (documented st) i)
+    /\ length (documented st') = length (documented st)
+    /\ origins st' = origins st
+    /\ class_stack st' = class_stack st
+    /\ def_stack st' = def_stack st
+    /\ awaiting st' = awaiting st.
+Proof. exact attr_attaches_to_top_only. Qed.
+Print Assumptions C09_attr_attaches_to_top_only.
+
+(* a class defined inside another: its own entry (base classes as written) and its name in the
+   outer class's inner-class list *)
+Theorem C09_inner_class_registered :
+  forall c doc docd st cidx rest name supers n d su inner ct me at_,
+    singles c = name :: supers ->
+    class_stack st = Some cidx :: rest ->
+    nth_error (documented st) cidx = Some (EClass n d su inner ct me at_) ->
+    let st' := process_class c doc docd st in
+    documented st'
+    = update_nth cidx (fun _ => EClass n d su (inner ++ [name]) ct me at_) (documented st)
+      ++ [EClass name doc supers [] [] [] []]
+    /\ nth_error (documented st') (length (documented st)) = Some (EClass name doc supers [] [] [] [])
+    /\ nth_error (documented st') cidx = Some (EClass n d su (inner ++ [name]) ct me at_)
+    /\ (forall i, i <> cidx -> i < length (documented st) ->
+                  nth_error (documented st') i = nth_error (documented st) i)
+    /\ length (documented st') = S (length (documented st))
+    /\ origins st' = origins st ++ [docd]
+    /\ class_stack st' = Some (length (documented st)) :: class_stack st
+    /\ def_stack st' = def_stack st
+    /\ awaiting st' = awaiting st.
+Proof. exact inner_class_registered. Qed.
+Print Assumptions C09_inner_class_registered.
+
+(* a method's parameters come from the definition that follows its declaration: without the
+   name and self arguments, after the member strip pattern; macro flag iff that definition is a macro *)
+Theorem C09_method_params_from_next_definition :
+  forall trigger strip_fn strip_mac strip_mem fl consumed c st cidx is_ctor n d su inner ct me at_ ms0 m,
+    awaiting st = AwMethod cidx is_ctor ->
+    nth_error (documented st) cidx = Some (EClass n d su inner ct me at_) ->
+    (if is_ctor then ct else me) = ms0 ++ [m] ->
+    is_def_name (cmd_kind c) = true ->
+    exists st',
+      enter_command fl trigger strip_fn strip_mac strip_mem consumed c st = Ok st'
+      /\ (let m' := {| m_name := m_name m; m_doc := m_doc m; m_parent := m_parent m;
+                       m_types := m_types m;
+                       m_params := m_params m ++ skipn 2 (map strip_mem (singles c));
+                       m_ctor := m_ctor m;
+                       m_macro := str_eqb (cmd_kind c) (s"macro");
+                       m_docd := m_docd m |} in
+          nth_error (documented st') cidx
+          = Some (if is_ctor then EClass n d su inner (ms0 ++ [m']) me at_
+                  else EClass n d su inner ct (ms0 ++ [m']) at_))
+      /\ (forall i, i <> cidx -> nth_error (documented st') i = nth_error (documented st) i)
+      /\ length (documented st') = length (documented st)
+      /\ origins st' = origins st
+      /\ class_stack st' = class_stack st
+      /\ def_stack st' = (if consumed then def_stack st else None :: def_stack st)
+      /\ awaiting st' = AwNone.
+Proof. exact method_params_from_next_definition. Qed.
+Print Assumptions C09_method_params_from_next_definition.
+
+(* rendering: macro note iff macro; attribute value option iff a default was given *)
+Theorem C09_method_macro_note_iff :
+  forall m, In method_note (dir_body (render_method m)) <-> m_macro m = true.
+Proof. exact method_macro_note_iff. Qed.
+Print Assumptions C09_method_macro_note_iff.
+
+Theorem C09_attribute_value_iff :
+  forall a, dir_opts (render_attribute a) = [] <-> a_default a = None.
+Proof. exact render_attribute_value_iff. Qed.
+Print Assumptions C09_attribute_value_iff.
+
+Theorem C09_source_literals_pinned :
+  get (s"ClassDocumentation.process") doctypes_strings
+  = [s"py:class"; F; s"Bases: "; s", "; s":class:`"; F; s"`"; [nl];
+     s"**Additional Constructors**"; s"**Methods**"; s"**Attributes**"; s"**Inner classes**"; s"class"]
+  /\ get (s"MethodDocumentation.process") doctypes_strings
+  = [s", "; s"args"; s"[, ...]"; []; s"py:method"; F; s"("; F; s")"; s"note"; method_macro_note;
+     s":param "; F; s":"; s"param "; F; []; s":type "; F; s":"; s"type "; F].
+Proof. exact (conj class_doc_literals method_doc_literals). Qed.
+Print Assumptions C09_source_literals_pinned.
